@@ -118,7 +118,9 @@ def check_C17(tier, seed):
     scs = (gen.vec_boundary(sh, L, with_masks=(tier != "quick")) + gen.vec_random(sh, z["nrand"], z["nops"], seed, p_invalid=0.25)
            + gen.index_exhaustive(sh, L) + gen.trait_access(sh, min(L, 3))
            + [gen.to_trait(s) for s in gen.vec_random(sh, z["nrand"] // 2, z["nops"], seed + 5)]
-           + gen.cap_scenarios(gen.CAP_SHAPES, z["nrand"] // 2, z["nops"], seed))
+           + gen.cap_scenarios(gen.CAP_SHAPES, z["nrand"] // 2, z["nops"], seed)
+           # invalid arguments of the mutable-slice API (swap, apply_index with lists that are no permutations, sorts of invalid ranges)
+           + gen.slicemut_invalid(["One", "Two", "NMid"] if tier == "quick" else sh, min(L, 3), seed))
     suites = [run_profile_diff("C17", scs)]
     def widen():
         yield run_profile_diff("C17", gen.vec_random(sh, 3000, 60, seed + 9, p_invalid=0.3) + gen.index_exhaustive(sh, 6), "widen")
@@ -185,7 +187,7 @@ def check_C11(tier, seed):
 def check_C16(tier, seed):
     t0 = time.time()
     L = 4 if tier == "quick" else 6
-    shapes = gen.ALL_SHAPES if tier != "quick" else ["One", "Two", "Flat4", "Heap", "DrH", "DrN", "NMid", "NMidF", "Deep"]
+    shapes = gen.ALL_SHAPES if tier != "quick" else ["One", "Two", "Flat4", "Heap", "DrH", "DrN", "PlC", "NMid", "NMidF", "Deep"]
     build_harness("debug"); build_harness("release")
     proof = prove("C16", ["Soa.Props.C16"])
     retain, others = gen.fault_scenarios(shapes, L, seed)
